@@ -34,7 +34,15 @@ GenCmd(st, sd, t) ==
         f(m) == Pick(sd, t, 1, m) = 0          \* force with probability 1/m
         (* scripts over many paths first fill the table *)
         filling == NPaths(sd) >= 17 /\ Len(st.tab) < 16 /\ Pick(sd, t, 9, 3) > 0
-    IN IF filling THEN (IF Dirty(Cur(st)) /\ ~f(3) THEN [k |-> "w", path |-> "", whole |-> TRUE, beg |-> 0, end |-> 0, force |-> TRUE, fault |-> ""]
+        (* every 16 steps, in the scripts with an even seed: change, save, reload the same file (the history survives),
+           then undo down to the text as first read - text and file differ although a save lies in between *)
+        ph == t % 16
+        scen == sd % 2 = 0 /\ ph >= 11 /\ Cur(st).path # ""
+    IN IF scen /\ ph = 11 THEN [k |-> "a", n |-> 1]
+       ELSE IF scen /\ ph = 12 THEN [k |-> "w", path |-> "", whole |-> TRUE, beg |-> 0, end |-> 0, force |-> TRUE, fault |-> ""]
+       ELSE IF scen /\ ph = 13 THEN [k |-> "e", path |-> "", force |-> TRUE]
+       ELSE IF scen /\ ph \in {14, 15} THEN [k |-> "u"]
+       ELSE IF filling THEN (IF Dirty(Cur(st)) /\ ~f(3) THEN [k |-> "w", path |-> "", whole |-> TRUE, beg |-> 0, end |-> 0, force |-> TRUE, fault |-> ""]
                         ELSE IF Pick(sd, t, 8, 4) = 0 THEN [k |-> "a", n |-> 1]
                         ELSE [k |-> "e", path |-> AllPaths[Min2(NPaths(sd), Len(st.tab) + Pick(sd, t, 2, 2))], force |-> f(3)])
        ELSE IF k < 4 THEN [k |-> "line", cs |-> Elem3(Pick(sd, t, 2, 6), PathOf(sd, t, 3))]
